@@ -159,6 +159,24 @@ def _branch_draw_variant(rng, d, in_branch):
             "options": dict(rng.choice(OPTION_SWARM[:6])), "api": rng.choice(["raw", "common"]), "force_cyclic": False}
 
 
+def _lib_functional(rng):
+    """Sin / Cos / Exp of a drawn variable, read before it is re-assigned; goals over the function variable and its
+    consumers in random order (the recurrence builder keeps per-monomial context for such variables)"""
+    d = rng.choice(["Normal(0, 1)", "Uniform(0, 1)", "Normal(1, 1/4)", "Uniform(-1, 1)"])
+    fn = rng.choice(["Cos", "Sin", "Exp"])
+    lines = ["x = 0", f"s = {rng.choice([0, 1])}", "y = 0", "while true:", f"    u = {d}"]
+    body = [f"    x = x + s", f"    s = {fn}(u)"]
+    if rng.random() < 0.5:
+        body.append("    y = y + s")
+    if rng.random() < 0.3:
+        body.reverse()
+    text = "\n".join(lines + body + ["end"]) + "\n"
+    pool = ["s", "x", "y", "s**2", "x*s", "u", "u*s"]
+    goals = [{"monom": g, "kind": "raw"} for g in rng.sample(pool, rng.choice([2, 3, 3]))]
+    return {"kind": "lib", "pid": "fun:" + hashlib.sha256(text.encode()).hexdigest()[:10], "program": {"text": text}, "goals": goals,
+            "options": dict(rng.choice([{}, {}, {"exact_func_moments": True}])), "api": rng.choice(["raw", "common", "common"]), "force_cyclic": False}
+
+
 def _lib_error(rng):
     c = corpus()
     r = rng.random()
@@ -248,7 +266,9 @@ def gen_case(seed, extra=None):
             s = _lib_from_corpus(rng, pid_pool)
         elif r < 0.68:
             s = _lib_generated(rng)
-        elif r < 0.74:
+        elif r < 0.71:
+            s = _lib_functional(rng)
+        elif r < 0.76:
             # a pair over the same draw: once inside a branch, once at top level
             d = rng.choice(BRANCH_DRAWS)
             sessions.append(_branch_draw_variant(rng, d, True))
